@@ -222,8 +222,89 @@ def bounded(tier, seed, procs):
                     expected=outcome.describe(spec), actual=outcome.describe(real),
                     functions=[f"EvaluationMapper.{getattr(type(e), 'mapper_method', 'map_foreign')}"]))
     b.exhaustive = True
-    runs = [b, cse_once(tier)]
+    runs = [b, cse_once(tier), containers_and_float(tier)]
     return runs
+
+
+def containers_and_float(tier):
+    """Lists / tuples / arrays as expressions, in both evaluators; the float entry point."""
+    import numpy as np
+    import pymbolic.primitives as p
+    from pymbolic.mapper.evaluator import CachedEvaluationMapper, EvaluationMapper, FloatEvaluationMapper, evaluate, evaluate_kw, evaluate_to_float
+    b = BoundedRun("containers-and-float", rule="expressions that are or contain Python lists, tuples and object arrays (top level, as call arguments, nested), with the plain "
+                   "evaluator, the memoizing evaluator and the entry points evaluate / evaluate_kw: the element-wise reference value, and plain == memoizing; "
+                   "evaluate_to_float / FloatEvaluationMapper on arithmetic trees over + - * / ** with integer leaves: the value of the same tree with every constant read "
+                   "as a float", bound="24 container expressions x 3 environments; 60 arithmetic trees x 3 environments", functions=["EvaluationMapper.map_list/map_tuple/map_numpy_array",
+                                                                                                                               "CachedEvaluationMapper", "evaluate_to_float"])
+    x, y, f = trees.X, trees.Y, trees.F
+    envs_ = [dict(x=2, y=5, f=lambda *a: sum(sum(t) if isinstance(t, (list, tuple)) else t for t in a)), dict(x=-1, y=Fraction(1, 2), f=lambda *a: len(a)),
+             dict(x=0, y=7, f=lambda *a: repr(a))]
+
+    def ref(e, env):
+        if isinstance(e, list):
+            return [ref(c, env) for c in e]
+        if isinstance(e, tuple):
+            return tuple(ref(c, env) for c in e)
+        if isinstance(e, np.ndarray):
+            out = np.empty(e.shape, dtype=object)
+            for i in np.ndindex(e.shape):
+                out[i] = ref(e[i], env)
+            return out
+        if isinstance(e, p.Call):
+            return env["f"](*[ref(c, env) for c in e.parameters])
+        return den(e, env)
+    conts = [[x, 1], [x, [y, 2]], (x, y), (x, (y, 3)), [p.Sum((x, y)), p.Product((x, 2))], ([x], (y,)), [], (), [(x, y), [y, x]],
+             p.Call(f, ([x, 1],)), p.Call(f, ((x, y), 2)), p.Call(f, ([x, y], [y, x])), p.Call(f, ((x, (y, 1)),)), [p.Call(f, (x,)), p.Call(f, ((x, x),))],
+             np.array([x, p.Sum((x, 1)), 3], dtype=object), np.array([[x, y], [1, p.Product((x, y))]], dtype=object)]
+    for e in conts:
+        has_list = "[" in repr(e) or isinstance(e, np.ndarray)     # a list or an array somewhere: unhashable
+        for env in envs_:
+            want = outcome.run(lambda: ref(e, env))
+            for name, fn in (("plain", lambda: EvaluationMapper(env)(e)), ("cached", lambda: CachedEvaluationMapper(env)(e)), ("evaluate", lambda: evaluate(e, env)),
+                             ("evaluate_kw", lambda: evaluate_kw(e, **env))):
+                got = outcome.run(fn)
+                b.case(("cont", repr(e)[:80], name, env["x"]), sample=dict(expr=repr(e)[:80], entry=name))
+                same = got[0] == want[0] and (got[0] == "exc" or (np.array_equal(got[1], want[1]) if isinstance(want[1], np.ndarray) else got[1] == want[1]
+                                                                    and type(got[1]) is type(want[1])))
+                if not same:
+                    cause = " cause=unhashable-container-in-memoizing-evaluator" if (has_list and name != "plain" and got[0] == "exc" and issubclass(got[1], TypeError)) else ""
+                    b.fail(Failure("containers-and-float", f"what=container{cause} entry={name} expr={e!r}"[:300], dict(kind="cont", expr=repr(e)[:200], entry=name),
+                                   expected=outcome.describe(want)[:120], actual=outcome.describe(got)[:120], functions=["EvaluationMapper.map_list", "CachedMapper.get_cache_key"]))
+    # float entry point
+    leaves = [x, y, 3, -2, 1]
+    arith = []
+    for u, v in itertools.product(leaves, repeat=2):
+        arith += [p.Sum((u, v)), p.Product((u, v)), p.Quotient(u, v), p.Power(u, 2), p.Sum((p.Quotient(u, 7), v))]
+    fenvs = [dict(x=2, y=5), dict(x=-1.5, y=0.25), dict(x=3, y=-4)]
+
+    def fref(e, env):
+        if isinstance(e, p.Variable):
+            return env[e.name]
+        if not isinstance(e, p.Expression):
+            return float(e)
+        if isinstance(e, p.Sum):
+            return sum((fref(c, env) for c in e.children), 0)
+        if isinstance(e, p.Product):
+            r = 1
+            for c in e.children:
+                r = r * fref(c, env)
+            return r
+        if isinstance(e, p.Quotient):
+            return fref(e.numerator, env) / fref(e.denominator, env)
+        if isinstance(e, p.Power):
+            return fref(e.base, env) ** fref(e.exponent, env)
+        raise KeyError
+    for e in arith[:: (1 if tier == "thorough" else 2)]:
+        for env in fenvs:
+            want = outcome.run(lambda: fref(e, env))
+            for name, fn in (("evaluate_to_float", lambda: evaluate_to_float(e, env)), ("FloatEvaluationMapper", lambda: FloatEvaluationMapper(env)(e))):
+                got = outcome.run(fn)
+                b.case(("float", repr(e), name, env["x"]))
+                ok = (got[0] == "exc" and want[0] == "exc") or (got[0] == "val" and want[0] == "val" and abs(got[1] - want[1]) <= 1e-12 * (1 + abs(want[1])))
+                if not ok:
+                    b.fail(Failure("containers-and-float", f"what=float entry={name} expr={e!r} x={env['x']}", dict(kind="float", expr=repr(e), entry=name),
+                                   expected=outcome.describe(want)[:100], actual=outcome.describe(got)[:100], functions=["evaluate_to_float", "FloatEvaluationMapper.map_constant"]))
+    return b
 
 
 def cse_once(tier):
